@@ -25,4 +25,8 @@ static inline u32 ll_asm_xgetbv(void) {
   return ghost_xcr0;
 }
 #endif
+#ifdef NEED_ll_exception
+u8 ghost_exception_thrown;   /* set by a (modelled) throw */
+static u8 ll_exception_buffer[256];
+#endif
 #endif
